@@ -162,6 +162,9 @@ class H2Protocol:
             event = _request_received(1, headers)
             await self._create_stream(event)
             await self.streams[event.stream_id].handle(EndBody(stream_id=event.stream_id))
+        # The connection may have started as HTTP/1 (prior knowledge or
+        # an upgrade), which reported it busy on reading the request.
+        await self.send(Updated(idle=self.idle))
         self.task_group.spawn(self.send_task)
 
     async def send_task(self) -> None:
